@@ -374,6 +374,21 @@ def cases_B_MO(info, ci, tier):
         for ndwt in (1.0, -1.0):
             out.append((n, f, ("default",), ndwt, ds[k % len(ds)], k % 3))
             k += 1
+    # per-objective weights obj_wt: every sign x magnitude combination for two objectives, against asymmetric fronts and
+    # four preference transformations (the front is reported already weighted: obj_wt must not enter the choice again)
+    owts = list(itertools.product((1.0, -1.0, 2.0, -2.0), repeat=2))
+    fronts = (((0, 3), (1, 1), (3, 0)), ((0, 2), (3, 1)), ((0, 3), (2, 2), (3, 1)), ((1, 3), (2, 0)))
+    if T:
+        fronts = fronts + tuple(R.antichains(grid, 3)[5::17])
+    specs = (("default",), ("vec", (1.0, 3.0)), ("dot", (1.0, 0.5)), ("table", None))
+    for f in fronts:
+        for ow in owts:
+            for sp in specs:
+                if sp[0] == "table":
+                    sp = ("table", tuple(float((i * 2 + len(f)) % 3) for i in range(len(f))))
+                for ndwt in (1.0, -1.0):
+                    out.append((n, f, sp, ndwt, ds[k % len(ds)], k % 3, ow))
+                    k += 1
     return out
 
 
@@ -864,11 +879,17 @@ def _exc_prefix(e, default):
     """an exception raised inside a configuration's sampling gets the configuration's signature prefix (the same
     one part A uses), whichever protocol happened to build that configuration"""
     tb = e.__traceback__
+    deepest = None
     while tb is not None:
         fn = tb.tb_frame.f_code.co_filename
         if "/breed/prot/sel/cfg/" in fn and tb.tb_frame.f_code.co_name == "sample_xconfig":
             return fn.rsplit("/", 1)[1][:-3] + ".sample_xconfig:"
+        if "/pybrops/" in fn:
+            deepest = (fn.rsplit("/", 1)[1][:-3], tb.tb_frame.f_code.co_name)
         tb = tb.tb_next
+    # raised directly in a select()/sosolve()/mosolve() shared by many concrete protocols: name that base class
+    if deepest and deepest[0].endswith("SelectionProtocol") and deepest[1] in ("select", "sosolve", "mosolve"):
+        return f"{deepest[0]}.{deepest[1]}:"
     return default
 
 
@@ -1034,8 +1055,15 @@ def _canonical(ctx, P, info, F, par, pop, crit, t, design, nmnp, wt, decn, rows,
 
 
 # ---- multi-objective choice rule
-def run_B_MO(ctx, info, n, front, spec, ndwt, design, vi, answers=None, seed=None):
-    """spec: ('default',) or ('table', scores tuple)"""
+def _dot_trans(mat, w=None, **kwargs):
+    """user-supplied non-dominated-set transformation: weighted sum of the objectives as reported by the solution"""
+    return numpy.asarray(mat, dtype=float).dot(numpy.asarray(w, dtype=float))
+
+
+def run_B_MO(ctx, info, n, front, spec, ndwt, design, vi, answers=None, seed=None, owt=None):
+    """spec: ('default',) | ('table', scores) | ('vec', vec_wt) default distance with a non-trivial preference vector |
+    ('dot', w) weighted sum.  owt: the protocol's per-objective weights obj_wt (None = all +1).  The front is what the
+    optimiser's solution object reports (already weighted by evalfn), so the reference scores never depend on owt."""
     seed = ctx.seed if seed is None else seed
     fam = info["fam"]
     F = FAM[fam]
@@ -1051,12 +1079,18 @@ def run_B_MO(ctx, info, n, front, spec, ndwt, design, vi, answers=None, seed=Non
     nmnp = _nmnp(vi + c, c)
     P = f"{info['cls']}.select:"
     case = dict(part="B-MO", cls=info["cls"], mod=info["mod"], n=n, front=[list(r) for r in front], spec=[spec[0]] + [list(x) for x in spec[1:]],
-                ndwt=ndwt, design=list(design), variant=vi, seed=seed, tier=ctx.tier)
+                ndwt=ndwt, design=list(design), variant=vi, seed=seed, tier=ctx.tier, owt=None if owt is None else list(owt))
     objs = numpy.array(front, dtype=float)
     if spec[0] == "table":
         table = {tuple(float(v) for v in row): float(s) for row, s in zip(front, spec[1])}
         nd = dict(ndset_wt=ndwt, ndset_trans=_table_trans, ndset_trans_kwargs=dict(table=table))
         scores = [ndwt * float(s) for s in spec[1]]
+    elif spec[0] == "vec":
+        nd = dict(ndset_wt=ndwt, ndset_trans_kwargs=dict(obj_wt=numpy.ones(nobj), vec_wt=numpy.array(spec[1], dtype=float)))
+        scores = [ndwt * d for d in R.ndpt_to_vec_dist(front, [1.0] * nobj, spec[1])]
+    elif spec[0] == "dot":
+        nd = dict(ndset_wt=ndwt, ndset_trans=_dot_trans, ndset_trans_kwargs=dict(w=numpy.array(spec[1], dtype=float)))
+        scores = [ndwt * sum(float(v) * float(w) for v, w in zip(row, spec[1])) for row in front]
     else:
         nd = dict(ndset_wt=ndwt)
         scores = [ndwt * d for d in R.ndpt_to_vec_dist(front, [1.0] * nobj, [1.0] * nobj)]
@@ -1070,7 +1104,8 @@ def run_B_MO(ctx, info, n, front, spec, ndwt, design, vi, answers=None, seed=Non
     ctx.transitions += 1
     ctx.count(f"B-MO:exec:{enc}{'-mate' if mate else ''}")
     try:
-        proto = _make_proto(info, pop, par, design, nmnp, nobj, None, t, g, R.make_brute(enc), mo, nd=nd)
+        proto = _make_proto(info, pop, par, design, nmnp, nobj, None if owt is None else numpy.array(owt, dtype=float), t, g,
+                            R.make_brute(enc), mo, nd=nd)
         with R.patched_global_prng(g):
             cfg = proto.select(miscout=misc, **pop.args())
     except R.NoFront:
@@ -1112,9 +1147,13 @@ def run_B_MO(ctx, info, n, front, spec, ndwt, design, vi, answers=None, seed=Non
     ok = ctx.guard(chk, case=case, sig_prefix=P)
     ctx.flag(f"B-MO:{info['cls']}")
     ctx.flag(f"B-MO:spec:{spec[0]}")
+    if owt is not None:
+        ctx.count("B-MO:per-objective-weight-cases")
+        if min(owt) < 0 < max(owt):
+            ctx.flag(f"B-MO:mixed-sign-obj_wt:{'mate-' if mate else ''}{enc}")
     ctx.flag(f"B-MO:ndwt:{'neg' if ndwt < 0 else 'pos'}")
-    ctx.nontriv(digest((info["cls"], n, front, spec, ndwt, design, vi)))
-    ctx.state(digest((info["cls"], front, spec, ndwt, design, cfg.xconfig_decn, cfg.xconfig)))
+    ctx.nontriv(digest((info["cls"], n, front, spec, ndwt, design, vi, owt)))
+    ctx.state(digest((info["cls"], front, spec, ndwt, owt, design, cfg.xconfig_decn, cfg.xconfig)))
     ctx.outcome(digest((info["enc"], "mo", cfg.xconfig_decn, cfg.xconfig)))
     if ok:
         ctx.traces += 1
@@ -1363,8 +1402,9 @@ def run_shard(spec, ctx):
     elif spec[0] == "B-MO":
         _, ci = spec
         info = discover()[0][ci]
-        for (n, f, sp, ndwt, design, vi) in cases_B_MO(info, ci, ctx.tier):
-            run_B_MO(ctx, info, n, f, sp, ndwt, design, vi)
+        for mcase in cases_B_MO(info, ci, ctx.tier):
+            (n, f, sp, ndwt, design, vi), ow = mcase[:6], (mcase[6] if len(mcase) > 6 else None)
+            run_B_MO(ctx, info, n, f, sp, ndwt, design, vi, owt=ow)
 
 
 def finalize(ctx, tier, seed):
@@ -1391,6 +1431,8 @@ def finalize(ctx, tier, seed):
     assert ctx.counters.get("B-SO:independent-criterion-checks", 0) > 1000 or broken
     assert ctx.counters.get("B-SO:canonical-equivariance-checks", 0) > 100 or broken
     assert ctx.counters.get("B-MO:choice-rule-judged", 0) > 1000 or broken
+    for e_ in ("subset", "real", "integer", "binary", "mate-subset", "mate-real", "mate-integer", "mate-binary"):
+        assert f"B-MO:mixed-sign-obj_wt:{e_}" in ctx.flags or broken, e_
     assert ctx.counters.get("H-B:histories", 0) > 2000 and ctx.counters.get("H-A:histories", 0) > 500
     for f in ("H-B:presel", "H-B:no-presel", "H-B:minimal", "H-B:full") + tuple(f"H-A:{k}" for k in CFG):
         assert f in ctx.flags, f
@@ -1423,4 +1465,4 @@ def replay(case, ctx):
             sp = case["spec"]
             spec = (sp[0],) + tuple(tuple(x) for x in sp[1:])
             run_B_MO(ctx, info, case["n"], tuple(tuple(r) for r in case["front"]), spec, case["ndwt"], tuple(case["design"]), case["variant"],
-                     seed=case.get("seed"))
+                     seed=case.get("seed"), owt=None if case.get("owt") is None else tuple(case["owt"]))
